@@ -15,7 +15,9 @@ TECHNIQUE = (
 RULE = (
     "scenario = word over events for n cases (references only after their full citation), all words of length <= L, "
     "rendered as sentences of one document. distinct = distinct rendered text; non-trivial = scenario with >= 1 "
-    "reference (short/supra/id) whose intended antecedent is defined by the model."
+    "reference (short/supra/id) whose intended antecedent is defined by the model. idpins: 12 first pages x every pin cite "
+    "from page-12 to page+150 plus four far-away pins x 5 contexts (directly after the full citation / a short form / a supra / "
+    "an id., and as a page range) x 3 pools."
 )
 ASSUMPTIONS = [
     "three pre-validated value pools of party names / reporters / pages (all enumerated in both tiers)",
@@ -42,7 +44,7 @@ LONGFILL = (
 
 
 def bounds(tier):
-    return {"cases": NCASES, "max_events": L[tier], "event_alphabet": len(ALPHA), "pools": len(POOLS)}
+    return {"cases": NCASES, "max_events": L[tier], "event_alphabet": len(ALPHA), "pools": len(POOLS), "idpin_pages": IDPIN_PAGES, "idpin_offsets": "-12..+150 all, +501, +1000, x10"}
 
 
 def step(state, ev, cases):
@@ -155,6 +157,32 @@ def check_text(text, expect):
     return out, nref
 
 
+IDPIN_PAGES = [1, 7, 9, 10, 11, 95, 99, 100, 850, 999, 1000, 9990]
+IDPIN_CTX = [
+    ("direct", "{full} Id. at {pin}."),
+    ("after-short", "{full} The court agreed. See {v} {rep} at {p1}. Id. at {pin}."),
+    ("after-supra", "{full} {d}, supra, at {p1}. Id. at {pin}, and so on."),
+    ("range", "{full} Id. at {pin}-{pin1}."),
+    ("after-id", "{full} Id. The court agreed. Id. at {pin}."),
+]
+
+
+def idpin_texts(pool):
+    """Every first page of a boundary set x EVERY pin cite within the opinion (page .. page+150), every pin before the first
+    page down to page-12, and pins implausibly far beyond it; the id. directly follows a resolved citation of the case."""
+    p, d, v, rep, _ = POOLS[pool][0]
+    for pg in IDPIN_PAGES:
+        full = f"{p} v. {d}, {v} {rep} {pg} (1990)."
+        pins = list(range(max(1, pg - 12), pg + 151)) + [pg + 501, pg + 1000, pg * 10 + 5000, 10 * (pg + 150) + 9]
+        for pin in pins:
+            valid = pg <= pin <= pg + 150
+            for name, tmpl in IDPIN_CTX:
+                text = tmpl.format(full=full, pin=pin, pin1=pin + 1, v=v, rep=rep, d=d, p1=pg + 1)
+                nfull_refs = {"direct": 0, "after-short": 1, "after-supra": 1, "range": 0, "after-id": 1}[name]
+                expect = [("full", 0)] + [("ref", 0)] * nfull_refs + [("ref", 0 if valid else None)]
+                yield text, expect
+
+
 def replay(case):
     res, _ = check_text(case["text"], [tuple(e) if e is not None else None for e in case["expect"]])
     return [{"msg": f"{lab}: {det} :: text={case['text']!r}", "label": lab} for lab, det in res]
@@ -162,7 +190,7 @@ def replay(case):
 
 def shards(tier, seed):
     pools = range(len(POOLS))
-    out = []
+    out = [{"pool": p, "idpins": True, "r": r, "n": 4} for p in pools for r in range(4)]
     for p in pools:
         out.append({"pool": p, "first": None, "L": L[tier]})
         for a in range(len(ALPHA)):
@@ -174,6 +202,23 @@ def shards(tier, seed):
 def run_shard(sh):
     st = Stats()
     cases = POOLS[sh["pool"]]
+    if sh.get("idpins"):
+        part = st.part("idpins")
+        import itertools
+
+        for text, expect in itertools.islice(idpin_texts(sh["pool"]), sh["r"], None, sh["n"]):
+            st.transitions += 1
+            k = h64(text)
+            st.states.add(k)
+            st.evaluations += 1
+            st.traces += 1
+            part["evaluations"] += 1
+            res, nref = check_text(text, expect)
+            st.nontrivial.add(k)
+            st.outcomes.add(h64([nref, [r[0] for r in res]]))
+            for lab, det in res:
+                st.violation({"text": text, "expect": [list(e) for e in expect]}, f"{lab}: {det} :: text={text!r}", label="idpin-" + lab)
+        return st
     part = st.part(f"pool{sh['pool']}")
     Lmax = sh["L"]
 
